@@ -1,6 +1,9 @@
 package nfs
 
 import (
+	"encoding/binary"
+	"time"
+
 	"github.com/goose-lang/primitive/disk"
 
 	"github.com/mit-pdos/go-journal/buf"
@@ -10,6 +13,7 @@ import (
 	"github.com/mit-pdos/go-nfsd/dir"
 	"github.com/mit-pdos/go-nfsd/fstxn"
 	"github.com/mit-pdos/go-nfsd/inode"
+	"github.com/mit-pdos/go-nfsd/nfstypes"
 	"github.com/mit-pdos/go-nfsd/shrinker"
 	"github.com/mit-pdos/go-nfsd/super"
 	"github.com/mit-pdos/go-nfsd/util/stats"
@@ -20,6 +24,9 @@ type Nfs struct {
 	shrinkst *shrinker.ShrinkerSt
 	// support unstable writes
 	Unstable bool
+	// write verifier: changes whenever the server instance changes, so that a
+	// client can tell that unstable data may have been lost
+	verf nfstypes.Writeverf3
 	// statistics
 	stats [NUM_NFS_OPS]stats.Op
 }
@@ -45,6 +52,7 @@ func MakeNfs(d disk.Disk) *Nfs {
 		shrinkst: shrinker.MkShrinkerSt(st),
 		Unstable: true,
 	}
+	binary.LittleEndian.PutUint64(nfs.verf[:], uint64(time.Now().UnixNano()))
 	if i.Kind == 0 {
 		nfs.makeRootDir()
 	}
